@@ -560,6 +560,9 @@ def result_type(da, dima, db, dimb):
     pa, pb = prio(dima), prio(dimb)
     if pa == pb:
         if pa == 0:
+            # two python scalars: the wider python kind (bool < int < float); the caller maps it to the default tensor dtype
+            if da.startswith("py") and db.startswith("py"):
+                return max(da, db, key=cat)
             raise Unsupported("scalar-scalar promotion")
         return promote_types(da, db)
     hi_d, lo_d = (da, db) if pa > pb else (db, da)
